@@ -121,7 +121,12 @@ def c17_case(draw):
         autos=draw(gen.masks()), boards=1, trim=draw(st.booleans()),
         antes=[0] * n, blinds=[bb // 2, bb] + [0] * (n - 2), bring_in=0,
         sb=bb, bb=2 * bb if game == 'FT' else bb, stacks=[stack] * n,
-        chip='int', rake=None, divmod='default',
+        chip='int',
+        # a raked table in a quarter of the cases: the history then records
+        # the finishing stacks (documented optional field), because the PHH
+        # fields do not carry the rake
+        rake=draw(st.sampled_from([None, None, None, [5, 100, None, False]])),
+        divmod='default',
         deck_seed=draw(st.integers(0, 10 ** 6)),
         profile=draw(st.sampled_from([0, 1, 2, 3, 5])), strict=False,
         unknown=False, rig=None, single_runout=True, via_game=True,
@@ -176,7 +181,13 @@ def check(case, stats):
             s = it.state
             terminal = not s.status
             ops = list(s.operations)
-            h = HandHistory.from_game_state(s._pkv_game, s, hand=7)
+            raked = bool(cfg.get('rake'))
+            if raked and terminal:
+                stats.count('class:raked_with_finishing_stacks')
+                h = HandHistory.from_game_state(
+                    s._pkv_game, s, hand=7, finishing_stacks=list(s.stacks))
+            else:
+                h = HandHistory.from_game_state(s._pkv_game, s, hand=7)
             # ---- Pluribus ------------------------------------------------
             actions, hole, _, board, _ = render(ops, n, variant)
             line = None
@@ -237,7 +248,7 @@ def check(case, stats):
                     players = '|'.join(f'p{i + 1}' for i in range(n))
                     line = (f'STATE:7:{actions}:{cards_field(hole, board)}'
                             f':{payoffs}:{players}')
-                if actions and all(all(x) for x in hole):
+                if actions and all(all(x) for x in hole) and not raked:
                     try:
                         hhs = list(HandHistory.from_acpc_protocol(
                             s._pkv_game, cfg['stacks'][0], line,
